@@ -81,8 +81,8 @@ class Skip(Suite):
     name = "skip"
     go_cmd = "c32"
     coq_imports = "From GoGit Require Import Model.SparseCheckout."
-    quick_n = 250
-    thorough_n = 5000
+    quick_n = 200
+    thorough_n = 4000
 
     def gen(self, rng, n, tier):
         cases = []
@@ -267,8 +267,8 @@ class Hist(Suite):
     name = "hist"
     go_cmd = "c32"
     coq_imports = "From GoGit Require Import Model.SparseCheckout."
-    quick_n = 250
-    thorough_n = 4000
+    quick_n = 200
+    thorough_n = 3000
     coq_chunk = 100
 
     def gen(self, rng, n, tier):
@@ -399,8 +399,8 @@ class Switch(Hist):
     """unrestricted histories (commit switches while SkipWorktree entries exist, non-forced switches on a populated
     worktree): outside the modelled family, checked with the direct oracle only"""
     name = "switch"
-    quick_n = 150
-    thorough_n = 3000
+    quick_n = 120
+    thorough_n = 2500
 
     def gen(self, rng, n, tier):
         return [gen_hist(rng, free=True) for _ in range(n)]
